@@ -1,15 +1,17 @@
 /-
-Lemmas/LayoutEval.lean — evaluating `assemble` on concrete programs inside the kernel.
-`expand` is defined by well-founded recursion and does not reduce; for programs without INCLUDE
-it is the identity, and the rest of the pipeline (`assembleFrom`) is structurally recursive.
+Lemmas/EncodeProgram.lean — evaluating `assemble` on concrete INCLUDE-free programs inside the kernel
+(for the whole-program witnesses of C05).  `expand` is defined by well-founded recursion and does not
+reduce; for programs without INCLUDE it is the identity, and the rest of the pipeline (`assembleNoInc`) is
+structurally recursive.  (Same device as Lemmas/LayoutEval.lean, under names of its own so that this file does not
+depend on the layout lemmas.)
 -/
-import CoCoVerif.Lemmas.LayoutBranch
+import CoCoVerif.Model.Program
 
 namespace CoCo.Asm
 open CoCo
 
 /-- `assemble` after INCLUDE expansion -/
-def assembleFrom (ss0 : List Stmt) : Outcome Assembly :=
+def assembleNoInc (ss0 : List Stmt) : Outcome Assembly :=
   match buildSymTab ss0 0 [] with
   | none => .diag
   | some t =>
@@ -43,14 +45,14 @@ def assembleFrom (ss0 : List Stmt) : Outcome Assembly :=
         | .internal => .internal
         | .diverged => .diverged
 
-theorem assemble_eq_from {fs : Files} {lines : List Str} {parsed ss0 : List Stmt}
+theorem assemble_eq_noInc {fs : Files} {lines : List Str} {parsed ss0 : List Stmt}
     (hp : parseLines lines = .ok parsed) (he : expand fs 64 [] parsed = .ok ss0) :
-    assemble fs lines = assembleFrom ss0 := by
-  unfold assemble assembleFrom
+    assemble fs lines = assembleNoInc ss0 := by
+  unfold assemble assembleNoInc
   rw [hp]; dsimp only; rw [he]
   rfl
 
-theorem expand_go_noinclude (fs : Files) (fuel : Nat) (inc : List Str) (ss : List Stmt)
+theorem expandGo_noInc (fs : Files) (fuel : Nat) (inc : List Str) (ss : List Stmt)
     (h : ss.all (fun s => !s.row.isInclude) = true) : expand.go fs fuel inc ss = .ok ss := by
   induction ss with
   | nil => rw [expand.go]
@@ -60,48 +62,52 @@ theorem expand_go_noinclude (fs : Files) (fuel : Nat) (inc : List Str) (ss : Lis
     simp only [h.1, Bool.false_and, Bool.false_eq_true, if_false]
     rw [ih (by simpa using h.2)]
 
-theorem expand_noinclude (fs : Files) (fuel : Nat) (inc : List Str) (ss : List Stmt)
+theorem expand_noInc (fs : Files) (fuel : Nat) (inc : List Str) (ss : List Stmt)
     (h : ss.all (fun s => !s.row.isInclude) = true) : expand fs (fuel + 1) inc ss = .ok ss := by
-  rw [expand]; exact expand_go_noinclude fs fuel inc ss h
+  rw [expand]; exact expandGo_noInc fs fuel inc ss h
 
 /-- run a check on the result of assembling an INCLUDE-free program -/
-def checkProgram (lines : List Str) (check : Assembly → Bool) : Bool :=
+def progCheck (lines : List Str) (check : Assembly → Bool) : Bool :=
   match parseLines lines with
   | .ok p => p.all (fun s => !s.row.isInclude) &&
-      (match assembleFrom p with | .ok a => check a | _ => false)
+      (match assembleNoInc p with | .ok a => check a | _ => false)
   | _ => false
 
-theorem checkProgram_sound {lines : List Str} {check : Assembly → Bool} (h : checkProgram lines check = true)
+theorem progCheck_sound {lines : List Str} {check : Assembly → Bool} (h : progCheck lines check = true)
     (fs : Files) : ∃ a, assemble fs lines = .ok a ∧ check a = true := by
-  unfold checkProgram at h
+  unfold progCheck at h
   split at h
   · rename_i p hp
     simp only [Bool.and_eq_true] at h
     obtain ⟨h1, h2⟩ := h
     split at h2
     · rename_i a ha
-      exact ⟨a, by rw [assemble_eq_from hp (expand_noinclude fs 63 [] p h1), ha], h2⟩
+      exact ⟨a, by rw [assemble_eq_noInc hp (expand_noInc fs 63 [] p h1), ha], h2⟩
     · cases h2
   · cases h
 
-/-- an INCLUDE-free program is rejected with a diagnostic -/
-def diagProgram (lines : List Str) : Bool :=
+/-- an INCLUDE-free program whose assembly ends in a diagnostic -/
+def progDiag (lines : List Str) : Bool :=
   match parseLines lines with
   | .ok p => p.all (fun s => !s.row.isInclude) &&
-      (match assembleFrom p with | .diag => true | _ => false)
+      (match assembleNoInc p with | .diag => true | _ => false)
+  | .diag => true
   | _ => false
 
-theorem diagProgram_sound {lines : List Str} (h : diagProgram lines = true) (fs : Files) :
+theorem progDiag_sound {lines : List Str} (h : progDiag lines = true) (fs : Files) :
     assemble fs lines = .diag := by
-  unfold diagProgram at h
+  unfold progDiag at h
   split at h
   · rename_i p hp
     simp only [Bool.and_eq_true] at h
     obtain ⟨h1, h2⟩ := h
     split at h2
     · rename_i ha
-      rw [assemble_eq_from hp (expand_noinclude fs 63 [] p h1), ha]
+      rw [assemble_eq_noInc hp (expand_noInc fs 63 [] p h1), ha]
     · cases h2
+  · rename_i hp
+    unfold assemble
+    rw [hp]
   · cases h
 
 end CoCo.Asm
